@@ -24,8 +24,26 @@ var registry = map[string]*Prop{}
 
 func register(p *Prop) { registry[p.ID] = p }
 
-// Get returns the checker for id.
-func Get(id string) *Prop { return registry[id] }
+var extras = map[string][]func(*Ctx){}
+
+// registerExtra adds rules to a property (run after its main rule set).
+func registerExtra(id string, f func(*Ctx)) { extras[id] = append(extras[id], f) }
+
+// Get returns the checker for id (main rules followed by the registered extra rules).
+func Get(id string) *Prop {
+	p := registry[id]
+	if p == nil || len(extras[id]) == 0 {
+		return p
+	}
+	q := *p
+	q.Run = func(c *Ctx) {
+		p.Run(c)
+		for _, f := range extras[id] {
+			f(c)
+		}
+	}
+	return &q
+}
 
 // IDs lists registered property ids.
 func IDs() []string {
